@@ -43,18 +43,32 @@ def failing_tests(out):
 
 
 def main():
-    prop, seed, name = sys.argv[1], sys.argv[2].rstrip("/"), sys.argv[3]
-    checks = sys.argv[4:] or [prop]
+    args = [a for a in sys.argv[1:] if not a.startswith("--")]
+    prop, seed, name = args[0], args[1].rstrip("/"), args[2]
+    checks = args[3:] or [prop]
     reset()
     patch = os.path.join(seed, "patch.diff")
     run_txt = open(os.path.join(seed, "demo", "RUN.txt")).read()
     cmds = []
+    demo_dir = os.path.join(seed, "demo")
     for l in run_txt.splitlines():
         l = l.strip()
         l = re.sub(r"^cd \S+\s*&&\s*", "", l)
         l = re.sub(r"/tmp/seed-C\d+", WT, l)
+        l = l.replace("<worktree>", WT).replace("<this dir>/../", seed + "/").replace("<this dir>", demo_dir)
+        l = re.sub(r"^git apply (\S*/)?patch\.diff$", "git apply " + patch, l)
+        if l.startswith("cp "):
+            parts = l.split()
+            # a source given relative to the demo directory
+            if len(parts) == 3 and not os.path.exists(parts[1]) and os.path.exists(os.path.join(demo_dir, os.path.basename(parts[1]))):
+                parts[1] = os.path.join(demo_dir, os.path.basename(parts[1]))
+            if len(parts) == 3 and not parts[2].startswith("/"):
+                parts[2] = os.path.join(WT, parts[2])
+            l = " ".join(parts)
         if re.match(r"^(cp|mkdir|cargo|git apply)\b", l):
             cmds.append(l)
+    if "--demo-only" in sys.argv:
+        os.environ["SEEDCHECK_DEMO_ONLY"] = "1"
     log = []
     phase = "before"
     demo_before = demo_after = None
@@ -94,6 +108,16 @@ def main():
             print(f"[demo after] rc={rc}: {c}")
             if rc == 0:
                 print(out[-2000:])
+    if os.environ.get("SEEDCHECK_DEMO_ONLY"):
+        dst = os.path.join(VERIF, "seeded", name, "meta.json")
+        meta = json.load(open(dst))
+        meta["confirmed"]["demo_passes_without_change"] = demo_before == 0
+        meta["confirmed"]["demo_fails_with_change"] = demo_after not in (0, None)
+        meta["confirmed"]["commands"] = [c for c, _ in log] + meta["confirmed"]["commands"][-2:]
+        json.dump(meta, open(dst, "w"), indent=1)
+        reset()
+        print(f"SEED {name}: demo confirmed={demo_before == 0 and demo_after not in (0, None)} detected_by={meta.get('detected_by')}")
+        return 0
     # 2. touched crates
     files = re.findall(r"^\+\+\+ b/(\S+)", open(patch).read(), re.M)
     crates = sorted({"/".join(f.split("/")[:2]) for f in files if f.startswith("crates/")} | {f.split("/")[0] for f in files if f.startswith("bin/")})
